@@ -1,6 +1,7 @@
 """C12 — arithmetic functions compute the documented values (structural part)."""
 from solver import Solver, some_payload
 from sym import Walker, strip, show, mentions
+import folds
 
 EXPLANATION = ("Structural necessary conditions of C12: for each arithmetic evaluator reached from unify_sfunction, the "
                "operation, operand order and initial accumulator of its integer and float folds (read from the MIR of the "
@@ -18,31 +19,6 @@ TRUSTED = ["rustc nightly MIR construction", "Iterator::fold applies the closure
 
 WANT = {"add": ("Add", "zero"), "multiply": ("Mul", "one"), "subtract": ("Sub", "first"), "divide": ("Div", "first")}
 SYMBOL = {"+": "add", "-": "subtract", "*": "multiply", "/": "divide"}
-
-
-def closure_op(prog, cpath):
-    """(op, operand order ok) of a fold closure |acc, &x| { acc op= x; acc }"""
-    b = prog.one(cpath.split("::")[-2] + "::" + cpath.split("::")[-1]) if False else None
-    cands = [x for x in prog.lib_bodies() if x.path == cpath]
-    if not cands:
-        return None
-    b = cands[0]
-    ps = Walker(b, max_visits=2).paths()
-    res = set()
-    for p in ps:
-        if p.end != "return":
-            continue
-        r = strip(p.ret)
-        if r[0] == "field" and r[2] == "0" and r[1][0] == "binop":
-            r = r[1]     # (older form; the walker now yields the plain binop for checked arithmetic)
-        if r[0] != "binop":
-            res.add(("?", show(r), False))
-            continue
-        op = r[1].replace("WithOverflow", "")
-        l, rr = strip(r[2]), strip(r[3])
-        ok = l[0] == "param" and l[1] == 2 and rr[0] == "param" and rr[1] == 3
-        res.add((op, b.locals[2]["s"], ok))
-    return res
 
 
 def run(ctx):
@@ -107,10 +83,13 @@ def run(ctx):
                 getter = "get_floats" if flag else "get_integers"
                 if src is None or not mentions(src, lambda t: t[0] == "call" and t[1].endswith(getter)):
                     why.append("%s branch does not reduce %s(..)" % (branch, getter))
-            elif not (val[0] == "call" and val[1].endswith("::fold")):
-                why.append("result is %s, not a fold" % show(val)[:80])
+            elif folds.shape(prog, val)[0] is None:
+                why.append(folds.shape(prog, val)[1])
             else:
-                it, init, clo = val[2][0], strip(val[2][1]), val[2][2]
+                sh = folds.shape(prog, val)[0]
+                for h in sh["via"]:
+                    ctx.stats["functions_analysed"].add(h)
+                it, init, clo = sh["src"], sh["init"], sh["clo"]
                 src = strip(it)
                 # iterator over get_floats / get_integers of the numbers
                 getter = "get_floats" if flag else "get_integers"
@@ -124,14 +103,15 @@ def run(ctx):
                 elif want_init == "one":
                     okinit = init[0] == "const" and (init[3] == 1 or init[2].startswith("1"))
                 else:
-                    okinit = init[0] == "call" and init[1].endswith("::remove") and init[2][1][0] == "const" and init[2][1][3] == 0
+                    okinit = init[0] == "call" and init[1].endswith("::remove") and init[2][1][0] == "const" and init[2][1][3] == 0 and \
+                        mentions(init[2][0], lambda t: t[0] == "call" and t[1].endswith(getter))
                 if not okinit:
                     why.append("initial accumulator is %s" % show(init)[:60])
                 cl = strip(clo)
                 if cl[0] != "closure":
                     why.append("fold function is %s" % show(cl)[:60])
                 else:
-                    ops = closure_op(prog, cl[1])
+                    ops = folds.closure_op(prog, cl)
                     if not ops or len(ops) != 1:
                         why.append("fold closure not understood: %s" % ops)
                     else:
@@ -172,26 +152,20 @@ def run(ctx):
                             strip(dict(v[3])["0"])[2] == v[2] + ".0"):
                         ok, why = False, "get_numbers pushes %s" % show(v)[:80]
         ctx.ob("R1", "float-flag", ok and n > 0, ctx.where(GN), why or "has_float is true exactly when an SFloat argument was seen (%d paths)" % n)
-        ok, why, n = True, "", 0
-        for p in Walker(GF, max_visits=2).paths():
-            for e in p.calls():
-                if e["callee"].endswith("::push"):
-                    n += 1
-                    v = strip(e["args"][1])
-                    good = (v[0] == "field" and v[2] == "SFloat.0") or \
-                        (v[0] == "cast" and v[2] == "f64" and v[3] == "IntToFloat" and strip(v[1])[0] == "field" and strip(v[1])[2] == "SInteger.0")
-                    if not good:
-                        ok, why = False, "get_floats pushes %s" % show(v)[:80]
-        ctx.ob("R1", "ints-as-f64", ok and n >= 2, ctx.where(GF), why or "floats pass through, integers are converted with `as f64`")
-        ok, why, n = True, "", 0
-        for p in Walker(GI, max_visits=2).paths():
-            for e in p.calls():
-                if e["callee"].endswith("::push"):
-                    n += 1
-                    v = strip(e["args"][1])
-                    if not (v[0] == "field" and v[2] == "SInteger.0"):
-                        ok, why = False, "get_integers pushes %s" % show(v)[:80]
-        ctx.ob("R1", "ints-pass-through", ok and n >= 1, ctx.where(GI), why or "integers pass through unchanged")
+        outs, err = folds.element_outputs(prog, GF)
+        ok, why = err is None, err or ""
+        for v in outs:
+            good = (v[0] == "field" and v[2] == "SFloat.0") or \
+                (v[0] == "cast" and v[2] == "f64" and v[3] == "IntToFloat" and strip(v[1])[0] == "field" and strip(v[1])[2] == "SInteger.0")
+            if not good:
+                ok, why = False, "get_floats yields %s" % show(v)[:80]
+        ctx.ob("R1", "ints-as-f64", ok and len(outs) >= 2, ctx.where(GF), why or "floats pass through, integers are converted with `as f64`")
+        outs, err = folds.element_outputs(prog, GI)
+        ok, why = err is None, err or ""
+        for v in outs:
+            if not (v[0] == "field" and v[2] == "SInteger.0"):
+                ok, why = False, "get_integers yields %s" % show(v)[:80]
+        ctx.ob("R1", "ints-pass-through", ok and len(outs) >= 1, ctx.where(GI), why or "integers pass through unchanged")
     # ---- R2 ------------------------------------------------------------------
     CA = prog.one("infix::check_arithmetic_infix")
     PT = prog.one("parse_terms::parse_term")
